@@ -1,11 +1,14 @@
 #!/bin/sh
-# usage: tools/sweep_seeds.sh <out.csv> — every seed under seeded/ against the quick check(s) recorded in its meta.json
-# (detected_by; seeds without an entry are run against the check of their own property), in an isolated copy ($ISO).
-OUT=$1; ISO=${ISO:-/tmp/iso4}; export ISO
+# usage: tools/sweep_seeds.sh <out.csv> [stream k of n, e.g. "0 2"] — every seed under seeded/ against the quick check(s) recorded in
+# its meta.json (detected_by; seeds without an entry are run against the check of their own property), in an isolated copy ($ISO).
+# With "k n" only every n-th seed starting at k is run, so that several streams (each with its own ISO) can share the work.
+OUT=$1; K=${2:-0}; N=${3:-1}; ISO=${ISO:-/tmp/iso4}; export ISO
 cd /verif || exit 2
 echo "seed,check,exit" > "$OUT"
+i=0
 for d in seeded/*/; do
   s=$(basename "$d"); [ -f "$d/patch.diff" ] || continue
+  i=$((i+1)); [ $((i % N)) -eq "$K" ] || continue
   checks=$(python3 - "$d/meta.json" "$s" <<'PY'
 import json,sys
 m=json.load(open(sys.argv[1])); s=sys.argv[2]
